@@ -1,5 +1,191 @@
 package spec
 
-import "lndlint/internal/an"
+import (
+	"go/ast"
 
-func codecC02(r *an.Run) {}
+	"lndlint/internal/an"
+)
+
+var chanStatusAlias = map[string]string{
+	"ChannelStatusForStore":    "chanStatus",
+	"SetChannelStatusForStore": "chanStatus",
+	"ConfirmedScidForStore":    "confirmedScid",
+	"SetConfirmedScidForStore": "confirmedScid",
+}
+
+func codecC02(r *an.Run) {
+	p := r.Prog
+	pairs := []an.CodecPair{
+		{Name: "OpenChannel/chanInfo", TypePkg: "chanstate", TypeName: "OpenChannel",
+			Enc:  []string{"channeldb.putChanInfo", "channeldb.extractOpenChannelTlvData"},
+			Dec:  []string{"channeldb.fetchChanInfo", "channeldb.amendOpenChannelTlvData"},
+			Opts: an.CodecOpts{Alias: chanStatusAlias}, CompareTypes: true, MinEvents: 17,
+			DecOnly: map[string]string{"LastWasRevoke": "stored under its own key by UpdateChannelCommitment / AppendRemoteCommitChain (obligation lastWasRevoke-constants)"}},
+		{Name: "OpenChannel/revocationState", TypePkg: "chanstate", TypeName: "OpenChannel",
+			Enc: []string{"channeldb.putChanRevocationState"}, Dec: []string{"channeldb.fetchChanRevocationState"},
+			CompareTypes: true, MinEvents: 4},
+		{Name: "ChannelConfig", TypePkg: "chanstate", TypeName: "ChannelConfig",
+			Enc: []string{"channeldb.writeChanConfig"}, Dec: []string{"channeldb.readChanConfig"},
+			CompareTypes: true, MinEvents: 11, AllFields: true,
+			Unserialised: map[string]string{"ChannelStateBounds": "embedded struct: its fields are written individually", "CommitmentParams": "embedded struct: its fields are written individually"}},
+		{Name: "ChannelCommitment", TypePkg: "chanstate", TypeName: "ChannelCommitment",
+			Enc:          []string{"channeldb.serializeChanCommit", "channeldb.extractCommitTlvData"},
+			Dec:          []string{"channeldb.deserializeChanCommit", "channeldb.amendCommitTlvData"},
+			CompareTypes: true, MinEvents: 12, AllFields: true},
+		{Name: "HTLC", TypePkg: "chanstate", TypeName: "HTLC",
+			Enc:          []string{"channeldb.SerializeHtlcs", "channeldb.serializeHtlcExtraData"},
+			Dec:          []string{"channeldb.DeserializeHtlcs", "channeldb.deserializeHtlcExtraData"},
+			CompareTypes: true, MinEvents: 10, AllFields: true},
+		{Name: "LogUpdate", TypePkg: "chanstate", TypeName: "LogUpdate",
+			Enc: []string{"channeldb.serializeLogUpdate"}, Dec: []string{"channeldb.deserializeLogUpdate"},
+			CompareTypes: true, MinEvents: 2, AllFields: true},
+		{Name: "LogUpdates", TypePkg: "chanstate", TypeName: "LogUpdate",
+			Enc: []string{"channeldb.serializeLogUpdates"}, Dec: []string{"channeldb.deserializeLogUpdates"},
+			CompareTypes: true, MinEvents: 3},
+		{Name: "CommitDiff", TypePkg: "chanstate", TypeName: "CommitDiff",
+			Enc: []string{"channeldb.serializeCommitDiff"}, Dec: []string{"channeldb.deserializeCommitDiff"},
+			CompareTypes: true, MinEvents: 8},
+	}
+	r.Obl("channel-codec-pairs", "CODEC",
+		"for each encoder/decoder pair of the channel state: the ordered sequence of (field, static element type) written to the stream equals the sequence read; the sets of struct fields used by the two sides agree; for the listed types every field is handled",
+		"a field dropped, reordered or re-typed on one side makes the reloaded state differ from the stored one (the serialisation defect class named in C02)", 16,
+		func(o *an.Obl) {
+			for _, cp := range pairs {
+				p.CheckPair(o, cp)
+			}
+		})
+	r.Obl("channel-tlv-structs", "CODEC",
+		"the TLV record structs appended to the channel info and to each commitment have pairwise distinct type numbers, the encoder and decoder hand exactly the declared records to the stream, and a parsed optional record is re-attached to the field with the same type number as the key that guards it",
+		"a duplicate or mismatched TLV type silently drops or misroutes a persisted field", 10,
+		func(o *an.Obl) {
+			p.CheckTlvStruct(o, "channeldb", "openChannelTlvData", "channeldb.openChannelTlvData.encode", "channeldb.openChannelTlvData.decode")
+			p.CheckTlvStruct(o, "channeldb", "commitTlvData", "channeldb.commitTlvData.encode", "channeldb.commitTlvData.decode")
+			p.CheckPair(o, an.CodecPair{Name: "openChannelTlvData/converters", TypePkg: "channeldb", TypeName: "openChannelTlvData",
+				Enc: []string{"channeldb.extractOpenChannelTlvData"}, Dec: []string{"channeldb.amendOpenChannelTlvData"}, AllFields: true, MentionsOnly: true})
+			p.CheckPair(o, an.CodecPair{Name: "commitTlvData/converters", TypePkg: "channeldb", TypeName: "commitTlvData",
+				Enc: []string{"channeldb.extractCommitTlvData"}, Dec: []string{"channeldb.amendCommitTlvData"}, AllFields: true, MentionsOnly: true})
+		})
+	r.Obl("element-switches", "CODEC",
+		"channeldb.WriteElement and ReadElement: the reader has a case *T exactly for every writer case T, and per type the set of fixed-size operand widths handed to encoding/binary agrees",
+		"every channel codec pair funnels through these two switches; a case present or widened on one side only breaks all of them at once", 25,
+		func(o *an.Obl) {
+			p.CheckElementSwitches(o, "channeldb.WriteElement", "channeldb.ReadElement", nil, nil, nil)
+		})
+	r.Obl("disk-mem-converters", "CODEC",
+		"commitment.toDiskCommit and diskCommitToMemCommit/diskHtlcToPayDesc agree on the fields of ChannelCommitment, HTLC, commitment and paymentDescriptor they carry across a restart; the forwarding package writer and loader agree on FwdPkg",
+		"a field set when writing but not restored (or vice versa) is lost at the first restart", 10,
+		func(o *an.Obl) {
+			p.CheckPair(o, an.CodecPair{Name: "ChannelCommitment/mem<->disk", TypePkg: "chanstate", TypeName: "ChannelCommitment",
+				Enc: []string{"lnwallet.commitment.toDiskCommit"}, Dec: []string{"lnwallet.LightningChannel.diskCommitToMemCommit"}, AllFields: true, MentionsOnly: true})
+			p.CheckPair(o, an.CodecPair{Name: "HTLC/mem<->disk", TypePkg: "chanstate", TypeName: "HTLC",
+				Enc:          []string{"lnwallet.commitment.toDiskCommit"},
+				Dec:          []string{"lnwallet.LightningChannel.diskHtlcToPayDesc", "lnwallet.LightningChannel.extractPayDescs"},
+				MentionsOnly: true,
+				EncOnly:      map[string]string{"Signature": "the stored HTLC signature is consumed by the resolution builders (C05), not by the update log"}})
+			p.CheckPair(o, an.CodecPair{Name: "commitment/mem<->disk", TypePkg: "lnwallet", TypeName: "commitment",
+				Enc: []string{"lnwallet.commitment.toDiskCommit"}, Dec: []string{"lnwallet.LightningChannel.diskCommitToMemCommit"},
+				MentionsOnly: true,
+				DecOnly:      map[string]string{"whoseCommit": "argument of the restore call", "dustLimit": "re-derived from the channel config of whoseCommit"}})
+			p.CheckPair(o, an.CodecPair{Name: "paymentDescriptor/mem<->disk", TypePkg: "lnwallet", TypeName: "paymentDescriptor",
+				Enc: []string{"lnwallet.commitment.toDiskCommit"}, Dec: []string{"lnwallet.LightningChannel.diskHtlcToPayDesc"},
+				MentionsOnly: true,
+				EncOnly:      map[string]string{"sig": "stored as HTLC.Signature; restored lazily by the resolution builders"},
+				DecOnly: map[string]string{"ChanID": "derived from the channel", "EntryType": "derived from custom records",
+					"ourPkScript": "re-derived script", "ourWitnessScript": "re-derived script", "theirPkScript": "re-derived script", "theirWitnessScript": "re-derived script"}})
+			p.CheckPair(o, an.CodecPair{Name: "FwdPkg", TypePkg: "chanstate", TypeName: "FwdPkg",
+				Enc: []string{"channeldb.ChannelPackager.AddFwdPkg"}, Dec: []string{"channeldb.loadFwdPkg"},
+				MentionsOnly: true,
+				DecOnly:      map[string]string{"State": "derived from the filters", "FwdFilter": "written separately by SetFwdFilter"}})
+		})
+
+	r.Obl("stored-keys-are-restored", "CODEC",
+		"every channel-bucket key written by the three state transitions (and the forwarding package keys) is read by a function reachable from the restore entry points, and every key read there has a writer",
+		"a value stored under a key nobody reads on reload is state silently dropped by a restart", 14,
+		func(o *an.Obl) {
+			puts := append(p.KeyUses("channeldb", "Put"), p.KeyUses("channeldb", "CreateBucketIfNotExists")...)
+			gets := append(p.KeyUses("channeldb", "Get"), p.KeyUses("channeldb", "NestedReadBucket")...)
+			roots := []string{"channeldb.fetchOpenChannel", "channeldb.ChannelStateDB.RemoteCommitChainTip",
+				"channeldb.ChannelStateDB.UnsignedAckedUpdates", "channeldb.ChannelStateDB.RemoteUnsignedLocalUpdates",
+				"channeldb.ChannelStateDB.LoadFwdPkgs"}
+			for _, id := range roots {
+				p.Func(id)
+			}
+			reach := p.Reachable(roots...)
+			keys := []string{"chanInfoKey", "chanCommitmentKey", "revocationStateKey", "commitDiffKey",
+				"unsignedAckedUpdatesKey", "remoteUnsignedLocalUpdatesKey", "lastWasRevokeKey",
+				"localUpfrontShutdownKey", "remoteUpfrontShutdownKey",
+				"addBucketKey", "failSettleBucketKey", "ackFilterKey", "settleFailFilterKey", "fwdFilterKey"}
+			for _, k := range keys {
+				p.LookupObj("channeldb", k)
+				var w, rd []string
+				for _, u := range puts {
+					if u.Key == k {
+						w = append(w, u.Root.ID)
+					}
+				}
+				ok := false
+				for _, u := range gets {
+					if u.Key == k {
+						rd = append(rd, u.Root.ID)
+						if reach[u.Root.ID] {
+							ok = true
+						}
+					}
+				}
+				o.Site("key %s: written by %v, read by %v", k, uniq(w), uniq(rd))
+				if len(w) == 0 {
+					o.FailAt("key-"+k+"#no-writer", "", "key %s has no Put/CreateBucket site in channeldb", k)
+				}
+				if !ok {
+					o.FailAt("key-"+k+"#not-restored", "", "key %s is written by %v but no Get/NestedReadBucket of it is reachable from the restore entry points %v (readers found: %v)", k, uniq(w), roots, uniq(rd))
+				}
+			}
+		})
+
+	r.Obl("broadcast-reads-synced-commitment", "WHO",
+		"getSignedCommitTx takes the transaction and signature to broadcast from channelState.LocalCommitment (the copy synchronised with disk by memory-after-disk) and never from the in-memory commitment chain",
+		"the chain tip can be ahead of disk; broadcasting it could publish a state whose predecessor was not durably revoked/recorded", 2,
+		func(o *an.Obl) {
+			f := p.Func("lnwallet.LightningChannel.getSignedCommitTx")
+			info := f.Info()
+			nLocal, nChain := 0, 0
+			ast.Inspect(f.Body, func(n ast.Node) bool {
+				sel, ok := n.(*ast.SelectorExpr)
+				if !ok {
+					return true
+				}
+				if an.Field("chanstate.OpenChannel", "LocalCommitment", nil)(f, sel) {
+					nLocal++
+					o.Site("reads %s at %s", an.Text(sel), f.Where(sel.Pos()))
+				}
+				if an.Field("lnwallet.LightningChannel", "commitChains", nil)(f, sel) {
+					nChain++
+					o.FailAt(f.ID+"#reads-commitChains", f.Where(sel.Pos()), "getSignedCommitTx reads the in-memory commitment chain: %s", an.Text(sel))
+				}
+				return true
+			})
+			_ = info
+			if nLocal == 0 {
+				o.FailAt(f.ID+"#no-LocalCommitment", f.Where(f.Body.Pos()), "getSignedCommitTx no longer reads channelState.LocalCommitment")
+			}
+			// ForceClose obtains the transaction through getSignedCommitTx
+			fc := p.Func("lnwallet.LightningChannel.ForceClose")
+			calls := fc.Calls(an.CalleeIs("lnwallet.LightningChannel.getSignedCommitTx"), true)
+			need(o, fc, "getSignedCommitTx", calls, 1)
+			for _, c := range calls {
+				o.Site("%s", c.String())
+			}
+		})
+}
+
+func uniq(in []string) []string {
+	seen := map[string]bool{}
+	var out []string
+	for _, s := range in {
+		if !seen[s] {
+			seen[s] = true
+			out = append(out, s)
+		}
+	}
+	return out
+}
